@@ -122,7 +122,7 @@ class Verifier(Calls):
             return
         fact = None
         # a value read from the untouched pre-state heap refers to a pre-existing object (closed heap)
-        bound = self.pre_alloc if (getattr(self, "pre_alloc", None) is not None and is_prestate_term(z3.simplify(t))) else self.comp("$alloc")
+        bound = self.heap_alloc0 if (getattr(self, "heap_alloc0", None) is not None and is_prestate_term(z3.simplify(t))) else self.comp("$alloc")
         if kind in ("list", "set", "frozenset", "anyset", "dict", "exc") or (kind and kind[0].isupper()):
             r = Val.r(t)
             fact = z3.And(Val.is_ref(t), r >= 0, r < bound, self.type_fact(r, ty))
@@ -187,6 +187,7 @@ class Verifier(Calls):
         self.closures = {}
         self.global_cache = {}
         self.pre_alloc = None
+        self.heap_alloc0 = None
         self.assume(self.comp("$alloc") >= 0)
 
     def run_path(self, c, f, mod, cls, fnode):
@@ -206,6 +207,7 @@ class Verifier(Calls):
                 locs[p] = self.sym_value(p, tag)
             if a.vararg is not None:
                 locs[a.vararg.arg] = self.sym_value(a.vararg.arg, c.params.get(a.vararg.arg, "tuple"))
+            self.heap_alloc0 = self.comp("$alloc")     # objects of the caller's heap are below this bound
             if a.kwarg is not None:
                 tag = c.params.get(a.kwarg.arg, "dict")
                 d = self.alloc("dict", tag)
